@@ -439,6 +439,7 @@ def one_loop(ex, st, p, it, module, is_for, inv, target, ordinal, optional=froze
     carried_notes += [n for n in q.notes if n not in head.notes]
   # ---- after the loop
   exit_p = head
+  exit_p.events.append(('loop-writes', target, ordinal, tuple(sorted(n_ for n_ in names if n_ in head_env))))
   exit_p.side += carried
   for n in carried_notes:
     if n not in exit_p.notes:
